@@ -86,6 +86,7 @@ def install(world, prng_seed=0.5):
     import ckl.values as V
     import ckl.interpreter as I
     import ckl.repl as R
+    import ckl.run as RUN
     if _SAVED is not None:
         uninstall()
     if not _HOOKED:
@@ -100,7 +101,7 @@ def install(world, prng_seed=0.5):
     osp = W.OsProxy(world)
     openp = W.OpenProxy(world)
     dtp = W.make_datetime_proxy(world)
-    for mod in (F, N, V, I, R):
+    for mod in (F, N, V, I, R, RUN):
         bind(mod, "open", openp)
         if "os" in mod.__dict__:
             bind(mod, "os", osp)
